@@ -535,6 +535,11 @@ type parser struct {
 	debug bool
 
 	memoize bool
+	// memoHits counts the results served from the memoization table. They are
+	// charged to the MaxExpressions budget (a repetition over a nullable
+	// expression would otherwise spin on cache hits for ever), but are not
+	// evaluations and therefore not part of Stats.ExprCnt.
+	memoHits uint64
 	// {{ end }} ==template==
 	// ==template== {{ if or .LeftRecursion (not .Optimize) }}
 	// memoization table for the packrat algorithm:
@@ -1062,6 +1067,10 @@ func (p *parser) parseExprWrap(expr any) (any, bool) {
 	// {{ end }} ==template==
 		res, ok := p.getMemoized(expr)
 		if ok {
+			p.memoHits++
+			if p.memoHits > p.maxExprCnt-p.ExprCnt {
+				panic(errMaxExprCnt)
+			}
 			p.restore(res.end)
 			return res.v, res.b
 		}
